@@ -52,6 +52,7 @@ import (
 
 	bbp "github.com/valyala/bytebufferpool"
 
+	"github.com/siglens/siglens/pkg/verifhook"
 	log "github.com/sirupsen/logrus"
 )
 
@@ -543,6 +544,7 @@ func (segstore *SegStore) AppendWipToSegfile(streamid string, forceRotate bool, 
 		wipBlockLock := sync.Mutex{}
 
 		segstore.initBmh()
+		verifhook.At("flush.begin", "segkey", segstore.SegmentKey, "blk", segstore.numBlocks, "recs", segstore.wipBlock.blockSummary.RecCount)
 
 		// If the virtual table name is not present(possibly due to deletion of indices without segments), then add it back.
 		if !vtable.IsVirtualTablePresent(&segstore.VirtualTableName, segstore.OrgId) {
@@ -648,13 +650,16 @@ func (segstore *SegStore) AppendWipToSegfile(streamid string, forceRotate bool, 
 		}
 
 		allColsToFlush.Wait()
+		verifhook.At("flush.cols.done", "segkey", segstore.SegmentKey, "blk", segstore.numBlocks)
 		blkSumLen := segstore.flushBlockSummary(segstore.numBlocks)
+		verifhook.At("flush.bsu", "segkey", segstore.SegmentKey, "blk", segstore.numBlocks)
 		if !isKibana {
 			// everytime we write compressedWip to segfile, we write a corresponding blockBloom
 			updateUnrotatedBlockInfo(segstore.SegmentKey, segstore.VirtualTableName, &segstore.wipBlock,
 				segstore.wipBlock.bmiCnameIdxDict, segstore.wipBlock.bmiColOffLen,
 				segstore.AllSeenColumnSizes, segstore.numBlocks, totalMetadata, segstore.earliest_millis,
 				segstore.latest_millis, segstore.RecordCount, segstore.OrgId, segstore.pqMatches)
+			verifhook.At("flush.unrotated.visible", "segkey", segstore.SegmentKey, "blk", segstore.numBlocks, "recs", segstore.RecordCount)
 		}
 		atomic.AddUint64(&totalBytesWritten, blkSumLen)
 
@@ -670,6 +675,7 @@ func (segstore *SegStore) AppendWipToSegfile(streamid string, forceRotate bool, 
 			log.Errorf("AppendWipToSegfile: failed to flushsegstats, err=%v", err)
 			return err
 		}
+		verifhook.At("flush.sst", "segkey", segstore.SegmentKey, "blk", segstore.numBlocks)
 
 		allColsSizes := segstore.getAllColsSizes()
 
@@ -680,6 +686,7 @@ func (segstore *SegStore) AppendWipToSegfile(streamid string, forceRotate bool, 
 			ColumnNames: allColsSizes, AllPQIDs: allPQIDs, NumBlocks: segstore.numBlocks, OrgId: segstore.OrgId}
 
 		WriteRunningSegMeta(&segmeta)
+		verifhook.At("flush.sfm", "segkey", segstore.SegmentKey, "blk", segstore.numBlocks)
 
 		for pqid, pqResults := range segstore.pqMatches {
 			segstore.pqNonEmptyResults[pqid] = segstore.pqNonEmptyResults[pqid] || pqResults.Any()
@@ -696,6 +703,7 @@ func (segstore *SegStore) AppendWipToSegfile(streamid string, forceRotate bool, 
 			return err
 		}
 		segstore.numBlocks += 1
+		verifhook.At("flush.end", "segkey", segstore.SegmentKey, "nblocks", segstore.numBlocks)
 	}
 	if segstore.numBlocks > 0 && !isKibana {
 		err := segstore.checkAndRotateColFiles(streamid, forceRotate, onTimeRotate)
@@ -837,6 +845,7 @@ func (segstore *SegStore) checkAndRotateColFiles(streamid string, forceRotate bo
 			ColumnNames: allColsSizes, AllPQIDs: allPqids, NumBlocks: segstore.numBlocks, OrgId: segstore.OrgId}
 
 		addSegmeta(segmeta)
+		verifhook.At("rot.segmeta.file", "segkey", segstore.SegmentKey)
 		if hook := hooks.GlobalHooks.AfterSegmentRotation; hook != nil {
 			err := hook(&segmeta)
 			if err != nil {
@@ -846,6 +855,7 @@ func (segstore *SegStore) checkAndRotateColFiles(streamid string, forceRotate bo
 
 		updateRecentlyRotatedSegmentFiles(segstore.SegmentKey, segstore.VirtualTableName)
 		metadata.AddSegMetaToMetadata(&segmeta)
+		verifhook.At("rot.metadata.visible", "segkey", segstore.SegmentKey)
 
 		go writeSortIndexes(segstore.SegmentKey, segstore.VirtualTableName)
 
@@ -862,6 +872,7 @@ func (segstore *SegStore) checkAndRotateColFiles(streamid string, forceRotate bo
 			log.Errorf("checkAndRotateColFiles: failed to cleanup unrotated segment %v, err=%v", segstore.SegmentKey, err)
 			return err
 		}
+		verifhook.At("rot.end", "segkey", segmeta.SegmentKey)
 	}
 	return nil
 }
@@ -881,6 +892,7 @@ func writeSortIndexes(segkey string, indexName string) {
 
 func CleanupUnrotatedSegment(segstore *SegStore, streamId string, removeDir bool, resetSegstore bool) error {
 	removeSegKeyFromUnrotatedInfo(segstore.SegmentKey)
+	verifhook.At("rot.unrotated.removed", "segkey", segstore.SegmentKey)
 
 	if removeDir {
 		err := os.RemoveAll(segstore.segbaseDir)
